@@ -110,6 +110,13 @@ func (t *thread) State() *State {
 	for i, script := range t.scripts {
 		ts.Scripts[i] = make(ParsedScript, len(script))
 		copy(ts.Scripts[i], script)
+		// the push data of an opcode is what it will put on the stack, so the
+		// snapshot must not share it with the running scripts.
+		for j := range ts.Scripts[i] {
+			if d := ts.Scripts[i][j].Data; d != nil {
+				ts.Scripts[i][j].Data = append(make([]byte, 0, len(d)), d...)
+			}
+		}
 	}
 
 	return &ts
